@@ -2,13 +2,15 @@
 from pyvc.report import Check, run_check
 from pyvc.smt import budget_ms
 from checks.cnf_common import run_plan, QUAL
+from checks.wp_common import run_wp
 
 
 def main(tier):
     ck = Check("C12", tier, "other",
                "Contracts on the real CNF builder methods, checked by concolic execution of the unmodified code with symbolic "
                "variable ids / fresh counter and an uninterpreted truth assignment. half_adder, full_adder, saturate_adder are "
-               "loop-free: all paths explored and covered => proved for every input (tier P). ripple_carry, ripple_saturate, "
+               "loop-free: all paths explored and covered => proved for every input (tier P). ripple_carry is additionally proved for every width by pyvc.wp "
+               "(loop invariant over partial sums, full_adder by contract: returned ids, fresh counter, sum equation). ripple_carry, ripple_saturate, "
                "pop_count(+_pop_count_layer) are proved per concrete width (tier S, bounded in width only) against their callees' "
                "contracts; 'no other freedom' is the Lemma-DE side condition (every fresh id defined exactly once as a function of "
                "smaller ids) checked at every level. Counterexamples are replayed on the real code with pycryptosat.")
@@ -29,6 +31,8 @@ def main(tier):
                "obligations were generated" % (maxL, maxS, maxS + 1, maxN, list(sats)))
     ck.exhaustive = False
     run_plan(ck, plan, budget_ms(tier), prop_prefix="C12.")
+    # ripple_carry for EVERY width: pyvc.wp over the real source with full_adder by contract (loop invariant over the partial sums)
+    run_wp(ck, ["ripple_carry"], budget_ms(tier), prefix="C12.wp.")
     ck.trust("z3 4.x / cvc5 as SMT back ends", "CPython semantics of the executed builder code (it is the code that runs)",
              "pycryptosat for native replay")
     ck.assume("math.ceil(math.log(n, 2)) evaluated concretely per shape (n bounded by the shape bound)",
